@@ -62,6 +62,36 @@ theorem C03_sim
   have h := Sim.runTraces_ok (P := P) hkc fuel n answers {} (by intro e he; simp at he) e he
   refine ⟨h.path, h.idx, fun pr hpr => ⟨(h.wit pr hpr).1, (h.wit pr hpr).2, fun hev => h.ev pr hpr hev⟩⟩
 
+/-- **Multi-threaded simulation.**  The workers of `spawn_simulation` with `threads(k)` share only the discoveries map
+    (and counters).  From one worker's point of view its read of `discoveries.contains_key` is "my own inserts OR
+    what the colleagues have inserted meanwhile" — the oracle `orc (trace number) (depth) (property)`, arbitrary —, a trace
+    can be cut off after any number of steps (`fuels`: a shutdown is noticed at every step), and the worker runs any
+    number of traces.  Whatever the oracle, the chooser's answers and the cut-off points: every discovery THIS worker
+    inserts is a genuine witness.  The shared map after `join` holds, per property, a path inserted by some worker
+    (`DashMap::insert`, last writer wins), hence `C03_sim_shared_map`. -/
+theorem C03_sim_worker
+    (hkc : ∀ a b, P.M.Reach a → P.M.Reach b → P.key a = P.key b → ∀ pr ∈ P.props, pr.cond a = pr.cond b)
+    (orc : Nat → Nat → Nat → Bool) (fuels : List Nat) (answers : List Nat) :
+    Sim.DiscOk P (Sim.tracesO P orc 0 fuels answers {}).disc :=
+  Sim.tracesO_ok (P := P) hkc orc fuels 0 answers {} (by intro e he; simp at he)
+
+/-- a map every entry of which was inserted by some worker of the run contains genuine witnesses only -/
+theorem C03_sim_shared_map
+    (hkc : ∀ a b, P.M.Reach a → P.M.Reach b → P.key a = P.key b → ∀ pr ∈ P.props, pr.cond a = pr.cond b)
+    (workers : List ((Nat → Nat → Nat → Bool) × List Nat × List Nat)) (shared : List (Nat × List σ))
+    (hfrom : ∀ e ∈ shared, ∃ w ∈ workers, e ∈ (Sim.tracesO P w.1 0 w.2.1 w.2.2 {}).disc) :
+    ∀ e ∈ shared,
+      P.M.IsPath e.2 ∧ e.1 < P.props.length ∧
+      (∀ pr, P.props[e.1]? = some pr →
+        (pr.exp = .always → ∃ s, e.2.getLast? = some s ∧ pr.cond s = false) ∧
+        (pr.exp = .sometimes → ∃ s, e.2.getLast? = some s ∧ pr.cond s = true) ∧
+        (pr.exp = .eventually → (∀ t ∈ e.2, pr.cond t = false) ∧
+          ((∃ t, e.2.getLast? = some t ∧ P.M.succB t = []) ∨ Sim.CyclesBack P e.2))) := by
+  intro e he
+  obtain ⟨w, _, hw⟩ := hfrom e he
+  have h := C03_sim_worker P hkc w.1 w.2.1 w.2.2 e hw
+  exact ⟨h.path, h.idx, fun pr hpr => ⟨(h.wit pr hpr).1, (h.wit pr hpr).2, fun hev => h.ev pr hpr hev⟩⟩
+
 /-! ### Non-vacuity and regression witness: the graph of defect F4 (`0→{1,2}, 2→3`, properties
 `[eventually (= 2), always true]`).  The machine — like the repaired code — reports `[0, 1]`, not `[0, 2, 3]`. -/
 
@@ -85,5 +115,10 @@ def f5Params : Params Nat Nat Nat :=
     key := id, cfg := { target := some 1 }, finishMatches := fun d => d.length == 1 }
 example : (Sim.runTraces f5Params 10 3 [0, 0, 0] {}).disc = [] := by decide
 example : (Sim.runTraces f5Params 10 3 [0, 1, 0] {}).disc = [] := by decide
+
+/-- a worker of a multi-threaded simulation: with nobody else discovering anything it records the counterexample `[0, 1]`
+    of the eventually-property; told (oracle) that a colleague has already inserted one, it records nothing -/
+example : (Sim.tracesO f4Params (fun _ _ _ => false) 0 [10] [0, 0, 0] {}).disc = [(0, [0, 1])] := by decide
+example : (Sim.tracesO f4Params (fun _ _ i => i == 0) 0 [10] [0, 0, 0] {}).disc = [] := by decide
 
 end SR.C03
